@@ -7,6 +7,7 @@ package sim
 import (
 	"fmt"
 	"hash/fnv"
+	"os"
 	"runtime"
 	"sort"
 	"strconv"
@@ -44,6 +45,37 @@ type Task struct {
 	dying    bool
 	cond     func() bool
 	Name     string
+	waitOn   string // what a kernel-parked task waits for (diagnostics)
+}
+
+// SetWait labels what the task is about to block on (diagnostics only).
+func (t *Task) SetWait(what string) { t.waitOn = what }
+
+// Stacks returns all goroutine stacks if VERIF_STACKS=1 (debugging aid).
+func Stacks() string {
+	if os.Getenv("VERIF_STACKS") != "1" {
+		return ""
+	}
+	buf := make([]byte, 4<<20)
+	n := runtime.Stack(buf, true)
+	return string(buf[:n])
+}
+
+// BlockedSummary lists the kernel-parked tasks and what they wait for.
+func (w *World) BlockedSummary() string {
+	w.mu.Lock()
+	defer w.mu.Unlock()
+	var sb []string
+	for _, t := range w.all {
+		if t.state == stBlocked && t.waitOn != "" {
+			sb = append(sb, t.ID+" waits for "+t.waitOn)
+		}
+	}
+	sort.Strings(sb)
+	if len(sb) > 30 {
+		sb = sb[:30]
+	}
+	return fmt.Sprint(sb)
 }
 
 // Failure is an oracle verdict.
@@ -127,6 +159,7 @@ type World struct {
 	hooks    []func()
 	endHooks []func()
 	klocks   map[any]*klock
+	lastNow  time.Time
 	Values   map[string]any // harness/shim attachments (snet, sfs ...)
 	main     *Task
 }
@@ -685,6 +718,25 @@ func (w *World) Choose(kind Kind, n int) int { return w.stream.choose(kind, n, -
 func (w *World) ChooseP(kind Kind, n int, p0 float64) int { return w.stream.choose(kind, n, p0) }
 
 func (w *World) Now() time.Duration { return time.Since(w.start) }
+
+// Now stands in for time.Now in instrumented code (rule R7): the bubble's fake clock does
+// not move while a task runs, so two consecutive calls would return the identical
+// instant, which real hardware never does (nanosecond resolution). Each call returns a
+// strictly later time than the previous one, by at least 1 ns, deterministically.
+func Now() time.Time {
+	w := cur.Load()
+	t := time.Now()
+	if w == nil {
+		return t
+	}
+	w.mu.Lock()
+	if !t.After(w.lastNow) {
+		t = w.lastNow.Add(time.Nanosecond)
+	}
+	w.lastNow = t
+	w.mu.Unlock()
+	return t
+}
 
 // Config returns the run's configuration (harnesses derive scenario classes from it).
 func (w *World) Config() RunConfig { return w.cfg }
